@@ -10,6 +10,7 @@ import gen
 from common import Outcome, rng_for
 
 LEVEL = "proof"
+SHRINK_KEYS = ("stream",)
 EXPLANATION = ("Theorems relate the incremental model to the non-incremental published rules; this run evaluates those rules "
                "(written independently in Python, non-incrementally) on the real detectors and ties the model to /repo.")
 ASSUMPTIONS = ["comparisons within relative margin 1e-9 of a tie end the trace (the property excludes numerically tied comparisons)"]
